@@ -290,6 +290,19 @@ class Fwd:
 
 
 def cschema(s, kt=None, depth=0):
+    """Coq term of a built schema.  Fail closed: a prop of an unexpected type (which only a broken
+    implementation produces) is Unmodelled, never a crash of the harness."""
+    try:
+        return _cschema(s, kt, depth)
+    except Unmodelled:
+        raise
+    except RecursionError:
+        raise
+    except Exception as e:  # noqa
+        raise Unmodelled(f"schema with an ill-typed prop ({type(e).__name__}: {e})")
+
+
+def _cschema(s, kt=None, depth=0):
     if kt is None:
         kt = KeyTable()
     if depth > 40:
